@@ -217,8 +217,15 @@ def _pure(e: ast.AST) -> bool:
 class _ConstMethods(ast.NodeTransformer):
     """`self.m()` where m is a method of the same class whose whole body is `return <display of pure expressions>` (no
     parameters but self): the call is replaced by that display (table-returning helpers: dispatch tables, lists of registries)."""
-    def __init__(self):
+    def __init__(self, tree: Optional[ast.AST] = None):
         self.inlined = 0
+        # a method defined in more than one class of the module may be overridden: `self.m()` is then not known statically
+        self.defined: Dict[str, int] = {}
+        for c in ast.walk(tree) if tree is not None else []:
+            if isinstance(c, ast.ClassDef):
+                for st in c.body:
+                    if isinstance(st, _FUNCS):
+                        self.defined[st.name] = self.defined.get(st.name, 0) + 1
 
     def visit_ClassDef(self, node: ast.ClassDef):
         self.generic_visit(node)
@@ -228,7 +235,7 @@ class _ConstMethods(ast.NodeTransformer):
                 body = [b for b in st.body if not (isinstance(b, ast.Expr) and isinstance(b.value, ast.Constant))]
                 if len(body) == 1 and isinstance(body[0], ast.Return) and isinstance(body[0].value, (ast.Tuple, ast.List)) and body[0].value.elts and _pure(body[0].value):
                     names = {x.id for x in ast.walk(body[0].value) if isinstance(x, ast.Name)}
-                    if names <= {st.args.args[0].arg} | {n for n in names if n != st.args.args[0].arg and not n.startswith("__")}:
+                    if self.defined.get(st.name, 0) == 1 and st.name.startswith("_"):
                         consts[st.name] = (st.args.args[0].arg, body[0].value)
         if not consts:
             return node
@@ -352,7 +359,7 @@ class _Unroll(ast.NodeTransformer):
 
 
 def normalise(tree: ast.Module) -> ast.Module:
-    cm = _ConstMethods()
+    cm = _ConstMethods(tree)
     cm.visit(tree)
     f = _Fold()
     f.visit(tree)  # (`table = (...)` followed by `for row in table:` becomes a loop over the display)
